@@ -320,6 +320,14 @@ static void run_cmd(int ntok, char **tok) {
         ev_begin("write"); ev_int("n", (long long)n); ev_int("ret", r < 0 ? (long long)r : (long long)done_); ev_int("piece", (long long)piece); ev_int("calls", calls); ev_ctx(c); ev_end();
         free(d);
     }
+    else if(!strcmp(op, "wparams")) {
+        /* the chunker's parameters as initialised by the first write: the average the rolling hash aims at and the limits */
+        int c = C(1); zckCtx *z = ctxs[c];
+        ev_begin("wparams");
+        if(z) { ev_int("avg", (long long)z->buzhash_bitmask + 1); ev_int("auto_min", (long long)z->chunk_auto_min); ev_int("auto_max", (long long)z->chunk_auto_max);
+                ev_int("min", (long long)z->chunk_min_size); ev_int("max", (long long)z->chunk_max_size); ev_int("manual", z->manual_chunk); }
+        ev_end();
+    }
     else if(!strcmp(op, "end_chunk")) { int c = C(1); ssize_t r = zck_end_chunk(ctxs[c]); ev_begin("end_chunk"); ev_int("ret", (long long)r); ev_ctx(c); ev_end(); }
     else if(!strcmp(op, "close")) { int c = C(1); bool r = zck_close(ctxs[c]); ev_begin("close"); ev_int("ret", r); ev_ctx(c); ev_end(); }
     else if(!strcmp(op, "read") || !strcmp(op, "readx")) {
